@@ -48,8 +48,8 @@ CLAIM = dict(
     technique="Lean 4 theorems over controller model x machine specification + trace correspondence against a simulated machine + Lean spec oracles")
 
 THEOREMS = ["nnid_range", "fill_wellformed", "fill_loads_exactly", "attempts_bounded",
-            "load_sound", "load_error_exact", "resend_exact"]
-THEOREMS_TODO = ["count_shortcut_counterexample", "readback_counterexample"]
+            "load_sound", "load_error_exact", "resend_exact",
+            "count_shortcut_counterexample", "readback_counterexample", "block_count_overflow_example"]
 
 RULE = ("cases = (machine of 1-40 chips: rectangles at several origins incl. aligned 4x4/8x8 blocks, scattered chips up to "
         "coordinate 255; 1-3 binaries of length around multiples of the buffer (buffer in {4,8,16,64,128,256}); core sets "
